@@ -27,6 +27,7 @@ type regEnv struct {
 	regCount int64
 	name     string // reg.Name
 	callee   func(name string) int
+	trace    *[]string // effect statements executed on the decided path
 }
 
 const (
@@ -151,12 +152,31 @@ func (e *regEnv) evalStmts(list []ast.Stmt) int {
 	for i, s := range list {
 		switch s := s.(type) {
 		case *ast.ReturnStmt:
+			if e.trace != nil {
+				*e.trace = append(*e.trace, stmtStr(s))
+			}
 			return outHandled
 		case *ast.ExprStmt:
 			if isPanicCall(s) {
 				return outPanic
 			}
+			if e.trace != nil {
+				if call, ok := s.X.(*ast.CallExpr); ok {
+					n := exprString(call.Fun)
+					if n == "copy" || strings.HasSuffix(n, ".SetVCC") || strings.HasSuffix(n, ".SetEXEC") || strings.HasSuffix(n, ".SetSCC") {
+						*e.trace = append(*e.trace, stmtStr(s))
+					}
+				}
+			}
 		case *ast.AssignStmt:
+			if e.trace != nil {
+				for _, l := range s.Lhs {
+					ls := exprString(l)
+					if strings.HasSuffix(ls, ".vcc") || strings.HasSuffix(ls, ".exec") || strings.HasSuffix(ls, ".scc") || strings.HasSuffix(ls, ".M0") {
+						*e.trace = append(*e.trace, stmtStr(s))
+					}
+				}
+			}
 			// buf := wf.ReadReg(reg, ...) : the outcome of the callee under the same environment
 			if len(s.Rhs) == 1 {
 				if call, ok := s.Rhs[0].(*ast.CallExpr); ok {
@@ -490,6 +510,105 @@ func runC07(c *core.Ctx) core.Meta {
 				if !table[a.fn][key] {
 					c.Report(core.Finding{Rule: "R07.2", Pkg: a.pkg, Func: a.fn, Detail: "unhandled:" + key,
 						Msg: fmt.Sprintf("register %s with %d register(s) ends in the 'not supported' panic here (handled by: %s): the register stores of the two modes disagree / a decodable register cannot be accessed", rq.k, rq.rc, strings.Join(yes, ", "))})
+				}
+			}
+		}
+	}
+
+	// R07.2 (continued): the decoder gives single registers RegCount 0 (getOperand); an access with count 0 must
+	// behave like an access with count 1 in every accessor
+	decoderCounts := map[int64]bool{}
+	if fd := findFuncDecl(c.Pkg(instsPkg), "getOperand"); fd != nil {
+		ast.Inspect(fd.Body, func(n ast.Node) bool {
+			call, ok := n.(*ast.CallExpr)
+			if !ok || len(call.Args) != 3 {
+				return true
+			}
+			if fnm := exprString(call.Fun); fnm == "NewRegOperand" || fnm == "NewSRegOperand" || fnm == "NewVRegOperand" {
+				if k, ok := constInt64(c.Pkg(instsPkg), call.Args[2]); ok {
+					decoderCounts[k] = true
+				}
+			}
+			return true
+		})
+	}
+	st2.Sample("register counts the operand decoder attaches to single registers: %v", decoderCounts)
+	if decoderCounts[0] {
+		for _, a := range accessors {
+			p := c.Pkg(a.pkg)
+			fd := findFuncDecl(p, a.fn)
+			if fd == nil {
+				continue
+			}
+			for _, k := range []string{"SCC", "M0", "VCCLO", "VCCHI", "EXECLO", "EXECHI"} {
+				run := func(rc int64) (int, string) {
+					var tr []string
+					env := &regEnv{p: p, regType: k, regCount: rc, name: regNames[k], trace: &tr}
+					env.callee = func(name string) int {
+						fd2 := findFuncDecl(p, "Wavefront."+name)
+						if fd2 == nil || fd2 == fd {
+							return 0
+						}
+						e2 := &regEnv{p: p, regType: k, regCount: rc, name: regNames[k], trace: &tr}
+						return e2.evalStmts(fd2.Body.List)
+					}
+					o := env.evalStmts(fd.Body.List)
+					return o, strings.ToLower(strings.Join(tr, " ; "))
+				}
+				o0, t0 := run(0)
+				o1, t1 := run(1)
+				st2.Instances++
+				ok := o0&outPanic == 0 && (o0 == o1) && t0 == t1
+				st2.Ob(ok)
+				if !ok {
+					what := "does " + short(t0) + " where a count of 1 does " + short(t1)
+					if o0&outPanic != 0 {
+						what = "ends in the 'not supported' panic"
+					}
+					c.Report(core.Finding{Rule: "R07.2", Pkg: a.pkg, Func: a.fn, Detail: "count0:" + k,
+						Msg: fmt.Sprintf("for %s with register count 0 - the count the operand decoder attaches to every single register - %s %s: a decoded instruction that names %s is handled differently from one built with count 1 (wrong width, wrong half, or a panic)", k, a.fn, what, strings.ToLower(k))})
+				}
+			}
+		}
+	}
+
+	// ---------------- R07.5 an operand write hands over exactly the operand's bytes ----------------
+	st5 := c.Rule("R07.5", "WriteOperand of both register stores passes to the register accessor a slice of exactly the operand's width (ByteSize, times RegCount for multi-register operands): the timing accessor decides between a half write and a full 64-bit write of VCC / EXEC by the length of that slice, so eight bytes for a 32-bit operand overwrite the other half", 2)
+	for _, w := range []struct{ pkg, fn string }{{emuPkg, "Wavefront.WriteOperand"}, {"amd/timing/wavefront", "Wavefront.WriteOperand"}} {
+		fn := c.MustFunc("R07.5", w.pkg, w.fn)
+		if fn == nil {
+			continue
+		}
+		c.MarkAnalysed(fn)
+		lp := core.NewLocalProv(c)
+		for _, b := range fn.Blocks {
+			for _, in := range b.Instrs {
+				cc := core.CallOf(in)
+				if cc == nil {
+					continue
+				}
+				name := ""
+				if cc.IsInvoke() {
+					name = cc.Method.Name()
+				} else if cc.StaticCallee() != nil {
+					name = cc.StaticCallee().Name()
+				}
+				if name != "WriteReg" {
+					continue
+				}
+				st5.Instances++
+				data := cc.Args[len(cc.Args)-1]
+				ok := false
+				why := lp.Of(data)
+				if sl, isS := data.(*ssa.Slice); isS && sl.High != nil {
+					hp := lp.Of(sl.High)
+					ok = strings.Contains(hp, ".ByteSize")
+					why = "…[:" + hp + "]"
+				}
+				st5.Ob(ok)
+				st5.Sample("%s.%s passes %s to WriteReg", w.pkg, w.fn, short(why))
+				if !ok {
+					c.ReportAt("R07.5", fn, in.Pos(), "operand-write-width", w.fn+" passes "+short(why)+" to the register accessor instead of the operand's own ByteSize (x RegCount) bytes: a 32-bit write to vcc_lo / vcc_hi / exec_lo arrives as eight bytes and the accessor overwrites the whole 64-bit register")
 				}
 			}
 		}
